@@ -13,7 +13,8 @@ Class Num (T : Type) := {
   nltb : T -> T -> bool;   (* x <  y *)
   neqb : T -> T -> bool;   (* x =  y *)
   nfloor : T -> Z;
-  nofZ : Z -> T
+  nofZ : Z -> T;
+  nsqrt : T -> T           (* R: sqrt; Q: rational approximation to 2^-80 (used only in margin-guarded places) *)
 }.
 
 Declare Scope num_scope.
@@ -51,6 +52,10 @@ End Derived.
 
 (** * Instance at Q (executable) *)
 Definition Qfl (x : Q) : Z := Qfloor x.
+(** sqrt of a non-negative rational to about 2^-80: Z.sqrt (x * 2^160) / 2^80 *)
+Definition Qsqrt_approx (x : Q) : Q :=
+  if Qle_bool x 0 then 0
+  else Qred (Z.sqrt (Qfloor (x * inject_Z (2 ^ 160))) # (2 ^ 80)).
 #[global] Instance NumQ : Num Q := {
   nadd x y := Qred (Qplus x y);
   nsub x y := Qred (Qminus x y);
@@ -61,7 +66,8 @@ Definition Qfl (x : Q) : Z := Qfloor x.
   nltb x y := negb (Qle_bool y x);
   neqb x y := Qeq_bool x y;
   nfloor := Qfl;
-  nofZ z := inject_Z z
+  nofZ z := inject_Z z;
+  nsqrt := Qsqrt_approx
 }.
 
 (** * Instance at R (object of the theorems) *)
@@ -71,7 +77,7 @@ Definition Reqb (x y : R) : bool := if Req_EM_T x y then true else false.
 Definition Rfloor (x : R) : Z := (up x - 1)%Z.
 #[global] Instance NumR : Num R := {
   nadd := Rplus; nsub := Rminus; nmul := Rmult; ndiv := Rdiv; nopp := Ropp;
-  nleb := Rleb; nltb := Rltb; neqb := Reqb; nfloor := Rfloor; nofZ := IZR
+  nleb := Rleb; nltb := Rltb; neqb := Reqb; nfloor := Rfloor; nofZ := IZR; nsqrt := sqrt
 }.
 
 Lemma Rleb_true x y : Rleb x y = true <-> (x <= y)%R.
@@ -111,7 +117,7 @@ Ltac rcase :=
         [apply Reqb_true in E | apply Reqb_false in E]
   end.
 
-Ltac rsimp := cbn [nadd nsub nmul ndiv nopp nleb nltb neqb nfloor nofZ NumR] in *.
+Ltac rsimp := cbn [nadd nsub nmul ndiv nopp nleb nltb neqb nfloor nofZ nsqrt NumR] in *.
 
 (** Output helpers for the correspondence evaluation: a Q as [num; den]. *)
 Definition Qout (q : Q) : list Z := let r := Qred q in [Qnum r; Zpos (Qden r)].
